@@ -588,3 +588,99 @@ Print Assumptions C14_template_exact.
 Print Assumptions C14_frag_template_node_annotation.
 Print Assumptions C14_transcript_contract_leaves_alone.
 Print Assumptions C14_annotation_reaches_returned_graph_any_transcript.
+
+(** ------------------------------------------------------------------------------------------
+    The transcript hypothesis of C14_text_annotation_reaches_returned_graph DISCHARGED (Dialect/TextParsed.v, imports only):
+    for an atomistic token list (wf_smiles: the fragment texts C13_render_parse / C13_index_agrees_with_parser cover) the
+    graph pysmiles builds from the clean text is the strip component's parser model [smiles_parse] on the clean text
+    strip_bonding_descriptors RETURNED, as a networkx graph [nx_of G] (keys 0..n-1 in order, attributes = the parsed atom
+    dicts, adjacency = the parsed bonds).  Distinct keys and "atom i is node i" are now proved: the clean text is
+    render_smiles of the tokens, the parser on it is the token graph, which has one node per atom token.  No hypothesis
+    about pysmiles' graph is left; smiles_parse itself is tied to pysmiles per run by C13. *)
+From CGV Require Import Dialect.TextParsed Frag.TemplateGraph.
+Theorem C14_parsed_text_graph_is_transcript : forall G,
+  NoDup (node_keys (nx_of G)) /\ node_keys (nx_of G) = map Z.of_nat (seq 0 (length (g_nodes G))) /\
+  forall i base, nth_error (g_nodes G) i = Some base -> exists n, gfind (Z.of_nat i) (nx_of G) = Some n /\ na n = base.
+Proof. intros G. split; [apply nx_of_nodup|]. split; [apply nx_of_keys|]. apply nx_of_gfind_node. Qed.
+Theorem C14_atom_token_is_parsed_node : forall toks dc pre body annot post G ks,
+  wf_smiles toks = true -> graph_of ks toks = Ok G ->
+  decorate toks dc = pre ++ ITok (TBracket body annot) :: post -> (atoms_of pre < length (g_nodes G))%nat.
+Proof. exact atom_token_index. Qed.
+Theorem C14_parse_of_returned_clean_text : forall fo toks dc clean d e a,
+  FragText.wf toks dc = true -> excluded toks dc = false -> wf_smiles toks = true ->
+  strip_bonding_descriptors fo (FragText.render (decorate toks dc)) = Ok (clean, d, e, a) ->
+  smiles_parse clean = graph_of false toks.
+Proof. exact parse_of_clean. Qed.
+Theorem C14_parsed_text_annotation_reaches_returned_graph : forall fo name toks dc,
+  FragText.wf toks dc = true -> excluded toks dc = false -> wf_smiles toks = true ->
+  forall clean desc ez ann, strip_bonding_descriptors fo (FragText.render (decorate toks dc)) = Ok (clean, desc, ez, ann) ->
+  forall G, smiles_parse clean = Ok G ->
+  forall bonding ezl T, read_fragment_post (nx_of G) name bonding ezl (ann_list ann) = Ok T ->
+  forall C, wf_cut C -> forall fd, templates_ok C fd -> wf_dict fd -> fd_get name fd = Some T ->
+  forall B, is_base C B ->
+  (forall x, In x (flat C) ->
+     (exists e, aget (S "element") (payload C x) = Some e) /\ (exists q, aget (S "charge") (payload C x) = Some q) /\
+     (exists h, aget (S "hcount") (payload C x) = Some (VInt h)) /\ Hydrogens.is_H (payload C x) = false) ->
+  forall prev g1 fo_, meta_of prev = B -> resolve_step_full true true fd prev (Some g1) = Ok fo_ -> dicts (fo_m3 fo_) ->
+  exists m, sort_mapping (fo_m4 fo_) = Ok m /\ SortGraphProofs.inj_on (map_get m) (node_keys (fo_m4 fo_)) /\
+    forall pre body annot post a key v,
+      decorate toks dc = pre ++ ITok (TBracket body annot) :: post ->
+      fragment_node_parser fo (annot_text annot) = Ok a -> In (key, v) a ->
+      ~ In key written_keys -> returned_key key -> key <> S "aromatic" ->
+      forall p xs x, nth_error (c_parts C) p = Some (name, xs) -> nth_error xs (atoms_of pre) = Some x ->
+        node_get (fo_mol fo_) (map_get m (phi C x)) key = Some v.
+Proof. exact parsed_annotation_reaches_returned_graph. Qed.
+(** ... and no other heavy atom gains the key: atom j's own token does not set it and the parser's dict of atom j has none
+    (for ANY parsed graph G the template was built from: this half does not need the index agreement) *)
+Theorem C14_parsed_text_annotation_not_gained : forall fo name toks dc,
+  FragText.wf toks dc = true -> excluded toks dc = false ->
+  forall clean desc ez ann, strip_bonding_descriptors fo (FragText.render (decorate toks dc)) = Ok (clean, desc, ez, ann) ->
+  forall G bonding ezl T, read_fragment_post (nx_of G) name bonding ezl (ann_list ann) = Ok T ->
+  forall C, wf_cut C -> forall fd, templates_ok C fd -> wf_dict fd -> fd_get name fd = Some T ->
+  forall B, is_base C B ->
+  (forall x, In x (flat C) ->
+     (exists e, aget (S "element") (payload C x) = Some e) /\ (exists q, aget (S "charge") (payload C x) = Some q) /\
+     (exists h, aget (S "hcount") (payload C x) = Some (VInt h)) /\ Hydrogens.is_H (payload C x) = false) ->
+  forall prev g1 fo_, meta_of prev = B -> resolve_step_full true true fd prev (Some g1) = Ok fo_ -> dicts (fo_m3 fo_) ->
+  exists m, sort_mapping (fo_m4 fo_) = Ok m /\
+    forall j key n base,
+      gfind (Z.of_nat j) T = Some n ->
+      nth_error (g_nodes G) j = Some base -> aget key base = None ->
+      (forall a, nd_get j ann = Some a -> aget key a = None /\ aget (S "element") a = None) ->
+      (nd_get j ann <> None \/ aget (S "element") base <> Some (VStr (S "H"))) ->
+      ~ In key written_keys -> ~ In key default_keys -> returned_key key -> key <> S "aromatic" ->
+      forall p xs y, nth_error (c_parts C) p = Some (name, xs) -> nth_error xs j = Some y ->
+        node_get (fo_mol fo_) (map_get m (phi C y)) key = None.
+Proof. exact parsed_annotation_not_gained. Qed.
+(** non-vacuity: {[#A][#A]}.{#A=C[C;0.5;x=R;k=v][$]} - every hypothesis holds for the fragment TEXT (strip returns, the parser
+    model returns, read_fragment_post on its graph returns the template, the cut / dict / base hypotheses hold for it, the step
+    returns) and both copies of atom 1 (returned keys 1 and 8) carry weight 0.5, chiral R, k = v; the copies of atom 0 do not *)
+Example C14_parsed_text_nonvacuous :
+  FragText.wf tp_toks tp_dc = true /\ excluded tp_toks tp_dc = false /\ wf_smiles tp_toks = true /\
+  to_string (FragText.render (decorate tp_toks tp_dc)) = "C[C;0.5;x=R;k=v][$]"%string /\
+  strip_bonding_descriptors tp_fo (FragText.render (decorate tp_toks tp_dc)) = Ok (S "C[C]", [(1%nat, [S "$1"])], [], tp_ann) /\
+  (exists G, smiles_parse (S "C[C]") = Ok G /\ read_fragment_post (nx_of G) (S "A") [(1, VList [VStr (S "$1")])] [] (ann_list tp_ann) = Ok tp_T) /\
+  wf_cut tpC /\ templates_ok tpC tp_fd /\ is_base tpC (base_of tpC) /\ wf_dict tp_fd /\ fd_get (S "A") tp_fd = Some tp_T /\
+  (forall x, In x (flat tpC) ->
+     (exists e, aget (S "element") (payload tpC x) = Some e) /\ (exists q, aget (S "charge") (payload tpC x) = Some q) /\
+     (exists h, aget (S "hcount") (payload tpC x) = Some (VInt h)) /\ Hydrogens.is_H (payload tpC x) = false) /\
+  meta_of (base_of tpC) = base_of tpC /\
+  match tp_m3 with
+  | Some m3 =>
+      dictsb m3 = true /\
+      match resolve_step_full true true tp_fd (base_of tpC) (Some m3) with
+      | Ok fo => fo_m3 fo = m3 /\
+          map (fun k => (node_get (fo_mol fo) k (S "weight"), node_get (fo_mol fo) k (S "chiral"), node_get (fo_mol fo) k (S "k"))) [0; 1; 7; 8]
+          = [(Some (VInt 1), None, None); (Some (VFlt (S "0.5")), Some (VStr (S "R")), Some (VStr (S "v")));
+             (Some (VInt 1), None, None); (Some (VFlt (S "0.5")), Some (VStr (S "R")), Some (VStr (S "v")))]
+      | Err _ => False
+      end
+  | None => False
+  end.
+Proof. exact parsed_annotation_example. Qed.
+Print Assumptions C14_parsed_text_graph_is_transcript.
+Print Assumptions C14_atom_token_is_parsed_node.
+Print Assumptions C14_parse_of_returned_clean_text.
+Print Assumptions C14_parsed_text_annotation_reaches_returned_graph.
+Print Assumptions C14_parsed_text_annotation_not_gained.
+Print Assumptions C14_parsed_text_nonvacuous.
